@@ -6,6 +6,11 @@ HERE = os.path.dirname(os.path.dirname(os.path.abspath(__file__)))
 
 # id -> (category, technique, level text, level note, design ref)
 CHECKS = {
+ "C07": ("exploration",
+         "property-based testing: repeated evaluation in one process and in 8 fresh processes (hash-seed schedules)",
+         "Generated inputs sized so that every hash-ordered collection in the anchored passes has several elements (resources over several bind groups incl. buffer addresses, several statics per function for Metal's implicit parameters, names colliding with generated _N suffixes, include graphs with #pragma once, rejected variants) are compiled 4 times in one process - every compile creates fresh HashMaps with fresh seeds - and once in each of 8 freshly spawned worker processes; the complete result (sources, stages, metadata, state or diagnostic) must be identical. 1 500 inputs x 4 in-process + 400 inputs x 8 processes quick; 40 000 + 6 000 x 8 thorough.",
+         "Assumes hash seeds are the only schedule (no clock, thread, address or environment dependence was found by reading). Deleting any of the four sorts named in the property is detected within the quick tier.",
+         "DESIGN.md section 3, C07"),
  "C17": ("exploration",
          "property-based testing: metamorphic relations over pipeline requests (all / by name / alone)",
          "Generated files with 0-4 pipelines (compute, vertex+pixel, mesh+pixel, task+mesh; prefix-related names; shared readers, resources, statics; different default bind groups) are compiled for a random target under the requests all / each name / unknown name / no-pipeline mode. One result per definition in order, by-name equals the element of the whole-file result, unknown name and empty files fail with the documented message, and each pipeline's full snapshot (source, stages, metadata, state or diagnostic) equals the one obtained from the file with all other Pipeline blocks deleted. 2 400 files quick, 60 000 thorough.",
